@@ -26,7 +26,7 @@ class C06System(BuilderSystem):
             ["tool_on", ["clockwise", p1]], ["tool_on", ["counter", p2]],
             ["power_on", ["constant", p2]], ["power_on", ["dynamic", p1]],
             ["coolant_on", ["mist"]], ["coolant_on", ["flood"]],
-            ["set_tool_power", [p2]], ["move", [], {"x": 1, "S": p1, "F": self.feedv}],
+            ["set_tool_power", [p2]], ["move", [], {"x": 1, "S": p1, "F": self.feedv}], ["rapid", [], {"x": 0, "S": p2}],
             ["tool_change", ["manual", self.tool_no]],
             ["set_bed_temperature", [self.temp]], ["set_hotend_temperature", [self.temp]],
             ["set_chamber_temperature", [self.temp]],
